@@ -636,3 +636,39 @@ func AddLayoutTables(t *tape.Tape, f *sfnt.Font) {
 		f.Gpos = g.Info(false)
 	}
 }
+
+// BigGpos builds a GPOS table whose lookup data exceeds 64 KiB, so that the
+// encoder has to reorder lookups and introduce extension subtables; several
+// lookups have exactly the same size (ties in any ordering by size).
+func BigGpos(t *tape.Tape, n int) *gtab.Info {
+	if n < 40 {
+		return nil
+	}
+	info := &gtab.Info{}
+	nl := t.Range(7, 11)
+	pairsPer := []int{t.Range(900, 1400), t.Range(900, 1400)}
+	for l := 0; l < nl; l++ {
+		np := pairsPer[t.Draw(2)]
+		s := gtab.Gpos2_1{}
+		// np distinct pairs, deterministic shape so that equal np gives
+		// equal encoded size
+		// (the same pairs in every lookup of that size; only the values differ)
+		for i := 0; len(s) < np && i < 4*np; i++ {
+			left := glyph.ID(1 + (i/37)%(n-1))
+			right := glyph.ID(1 + (i*7)%(n-1))
+			v := funit.Int16(1 + (i+l)%200)
+			s[glyph.Pair{Left: left, Right: right}] = &gtab.PairAdjust{
+				First:  &gtab.GposValueRecord{XAdvance: v, XPlacement: v + 1, YPlacement: v + 2},
+				Second: &gtab.GposValueRecord{XAdvance: -v, XPlacement: 3, YPlacement: 4},
+			}
+		}
+		info.LookupList = append(info.LookupList, &gtab.LookupTable{Meta: &gtab.LookupMetaInfo{LookupType: 2}, Subtables: []gtab.Subtable{s}})
+	}
+	var all []gtab.LookupIndex
+	for i := range info.LookupList {
+		all = append(all, gtab.LookupIndex(i))
+	}
+	info.FeatureList = gtab.FeatureListInfo{{Tag: "kern", Lookups: all}}
+	info.ScriptList = gtab.ScriptListInfo{language.MustParse("und-Zzzz"): {Required: 0xFFFF, Optional: []gtab.FeatureIndex{0}}}
+	return info
+}
